@@ -309,7 +309,10 @@ def e2_selfcheck():
             # real function
             set_clock(*now)
             del schedule.booted[:]
-            ev = make_event(kind, spec, tm)
+            try:
+                ev = make_event(kind, spec, tm)
+            except ValueError:
+                continue  # the constructor refusing a valid specification is the ctor-* obligations' finding, not the translator's
             try:
                 real = ('ret', schedule._delay(ev))
             except ValueError:
@@ -496,7 +499,7 @@ INFO = {
     'real function agree; E1: one path = one history of timer/firing/completion events',
     'functions': ['pl.schedule._delay (AST->SMT)', 'pl.schedule.defer', 'pl.schedule.periodics', 'pl.schedule.complete', 'dawgie.schedule'],
     'bounds': {
-        'quick': 'every clock instant 1970-01-01..2100-12-31 (microsecond resolution), dom 1..31, dow 0..6, any valid date 1970..2100, any time of day; histories of <=6 events (timer fires at its due instant, work completes, reload, new target) from a boot on Monday 2024-01-01 02:58 with a weekly and a boot event plus either a monthly event or a dated event later on the boot day',
+        'quick': 'public constructor dawgie.schedule(): dom 1..31, dow 0..6, 60 consecutive dates around a leap day, boot, three times of day (CrossHair, the specification value is a solver variable); kernel: every clock instant 1970-01-01..2100-12-31 (microsecond resolution), dom 1..31, dow 0..6, any valid date 1970..2100, any time of day; histories of <=6 events (timer fires at its due instant, work completes, reload, new target) from a boot on Monday 2024-01-01 02:58 with a weekly and a boot event plus either a monthly event or a dated event later on the boot day',
         'thorough': 'same kernel; histories of <=8 events',
     },
     'assumptions': [
@@ -510,12 +513,52 @@ INFO = {
 }
 
 
+def ctor_body(kind, x, h, mi):
+    """the public event constructor on every specification the compliance rule accepts:
+    it may not fail and must hand back the moment it was given (x is a solver variable)"""
+    t = datetime.time(h, mi, 0)  # h, mi are literals of the obligation
+    try:
+        if kind == 'dom':
+            ev = dawgie.schedule(None, None, dom=x, time=t)
+        elif kind == 'dow':
+            ev = dawgie.schedule(None, None, dow=x, time=t)
+        elif kind == 'day':
+            day = None
+            for i in range(60):  # 2024-02-01 .. 2024-03-31 (leap day, month ends)
+                if x == i:
+                    with rt.island():
+                        day = datetime.date(2024, 2, 1) + datetime.timedelta(days=i)
+            if day is None:
+                return
+            ev = dawgie.schedule(None, None, day=day, time=t)
+        else:
+            ev = dawgie.schedule(None, None, boot=True)
+    except ValueError as err:
+        rt.fail('c20:constructor-rejects-valid-spec', f'dawgie.schedule({kind}={x}, time={t}) raised {err!r}')
+    rt.nontrivial()
+    m = ev.moment
+    got = {'dom': m.dom, 'dow': m.dow, 'day': m.day, 'boot': m.boot}
+    for k2, v2 in got.items():
+        if k2 != kind:
+            rt.require(v2 is None, 'c20:constructor-wrong-moment', f'{kind}={x}: field {k2} is {v2!r}')
+    if kind in ('dom', 'dow'):
+        rt.require(got[kind] == x, 'c20:constructor-wrong-moment', f'{kind}={x}: moment holds {got[kind]!r}')
+    if kind != 'boot':
+        rt.require(m.time == t, 'c20:constructor-wrong-moment', f'{kind}={x}: time {m.time!r}')
+
+
 def obligations(tier):
+    from vp import ob as _ob
+
     out = [{'name': 'e2-selfcheck', 'group': 'e2', 'kind': 'call', 'call': 'vp.harness.c20:e2_selfcheck', 'timeout': 600}]
     for kind, clauses in (('dom', ('valid', 'match', 'period', 'next')), ('dow', ('valid', 'match', 'period', 'next')), ('day', ('valid', 'match')), ('boot', ('boot',))):
         for cl in clauses:
             out.append({'name': f'e2-{kind}-{cl}', 'group': 'e2', 'kind': 'call', 'call': 'vp.harness.c20:e2_clause',
                         'kwargs': {'kind': kind, 'clause': cl}, 'timeout': 900})
+    for kind, lo, hi in (('dom', 1, 31), ('dow', 0, 6), ('day', 0, 59), ('boot', 0, 0)):
+        for h, mi in ((0, 0), (3, 30), (23, 59)):
+            out.append(_ob.make(f'ctor-{kind}-{h:02d}{mi:02d}', 'ctor', 'vp.harness.c20:ctor_body', 'x: int', [f'{lo} <= x <= {hi}'],
+                                f"{{'kind': {kind!r}, 'x': x, 'h': {h}, 'mi': {mi}}}", timeout=300))
     kk = 6 if tier == 'quick' else 8
     n = len(HEVENTS)
     from vp import ob
